@@ -127,7 +127,8 @@ def over_limit(pkt):
     _, kv = parse_kv(pkt)
     for k, v in kv:
         for part in v.split(":"):
-            if part.startswith("x") and (len(part) - 1) // 2 > 65535 and not k.endswith("payload"):
+            # only the application payload of a PUBLISH is unbounded; a will's payload is length-prefixed binary data
+            if part.startswith("x") and (len(part) - 1) // 2 > 65535 and k != "payload":
                 return True
     return False
 
@@ -208,7 +209,7 @@ def suite_encode(report, tier, seed, prop="C02"):
                 f2, _ = resp_fields(r)
                 if f2.get("res") != "ok":
                     return False
-                by = f2.get("chunks", "x")
+                by = hexs(b"".join(unhex(x) for x in f2.get("chunks", "x").split(",") if x))
                 o = driver_batch([f"spec.decode v={c['v']} b={by}", f"spec.canon v={c['v']}{c['res']} | {t}"])
                 a, sa = resp_fields(o[0])
                 b, sb = resp_fields(o[1])
